@@ -236,6 +236,57 @@ func ruleC12_4(c *Ctx) {
 			}
 		}
 	})
+	if !(lo && hi) {
+		// positive form: a byte is accumulated into the number only under '0' <= b && b <= '9' (a predicate such as
+		// isDigit(b) is expanded by the guard engine), and the loop has an ErrInvalidResp exit
+		hasInvalid := false
+		allInstrs(fn, func(in ssa.Instruction) {
+			if r, ok := in.(*ssa.Return); ok {
+				rs := results(r)
+				if ld, ok := rs[len(rs)-1].(*ssa.UnOp); ok && ld.X == ssa.Value(invalid) {
+					hasInvalid = true
+				}
+			}
+		})
+		accLo, accHi, nAcc := true, true, 0
+		allInstrs(fn, func(in ssa.Instruction) {
+			bo, ok := in.(*ssa.BinOp)
+			if !ok || bo.Op != token.SUB {
+				return
+			}
+			if k, isK := constInt(bo.Y); !isK || k != '0' || !c.contentDerived(bo.X) {
+				return
+			}
+			nAcc++
+			gl, gh := false, false
+			for _, g := range guardsAt(bo.Block()) {
+				x, op, y, ok := cmpGuard(g)
+				if !ok {
+					continue
+				}
+				if k, isK := constInt(y); isK && c.contentDerived(strip(x)) {
+					if (op == token.GEQ && k == '0') || (op == token.GTR && k == '0'-1) {
+						gl = true
+					}
+					if (op == token.LEQ && k == '9') || (op == token.LSS && k == '9'+1) {
+						gh = true
+					}
+				}
+				if k, isK := constInt(x); isK && c.contentDerived(strip(y)) {
+					if (op == token.LEQ && k == '0') || (op == token.LSS && k == '0'-1) {
+						gl = true
+					}
+					if (op == token.GEQ && k == '9') || (op == token.GTR && k == '9'+1) {
+						gh = true
+					}
+				}
+			}
+			accLo, accHi = accLo && gl, accHi && gh
+		})
+		if hasInvalid && nAcc > 0 && accLo && accHi {
+			lo, hi = true, true
+		}
+	}
 	c.check(lo && hi, "parseLen: non-digits are invalid", p.pos(fn.Pos()), "b < '0' || b > '9' ⇒ ErrInvalidResp",
 		"parseLen does not reject every byte outside '0'..'9' as invalid RESP: lengths such as \"1x\" or \"+3\" are accepted and the raw header is forwarded to a backend, which closes the shared connection with a protocol error")
 }
